@@ -33,7 +33,8 @@ Qed.
 
 Lemma dec1_progress be buf c rest : dec1 be buf = Got c rest -> (length rest < length buf)%nat.
 Proof.
-  destruct buf as [|b0 [|b1 [|b2 [|b3 r]]]]; unfold dec1; split_ifs; intros H; inversion H; subst; cbn [length]; lia.
+  destruct buf as [|b0 [|b1 [|b2 [|b3 r]]]]; unfold dec1; split_ifs; intros H; try discriminate H;
+    match type of H with Got _ ?r = _ => assert (rest = r) by congruence; subst rest end; cbn [length]; lia.
 Qed.
 
 Lemma parse1_progress buf u rest : parse1 buf = Some (u, rest) -> (length rest < length buf)%nat.
